@@ -7,7 +7,7 @@ CONSTANTS
   EmitEvery = 1500
   PlanSet <- Plans
   PresChoices <- Pres
-  SelSet <- Sels2
+  SelSet <- Sels3
   KBSet = {"nokb", "kb"}
   ResSet = {"byiss"}
   AudNonceSet = {"none", "ok", "aud2", "n2", "onlyaud", "onlynonce"}
